@@ -1103,14 +1103,22 @@ func c16Commands(t *testing.T, R *ev.Run) {
 		for _, name := range []string{"encode", "report", "plot"} {
 			R.Eval(1)
 			R.Trans(1)
-			func() {
-				defer func() {
-					if x := recover(); x != nil {
-						out[i] = append(out[i], viol{"cmd-" + name + ":panic", map[string]any{"input": ev.Trunc(fmt.Sprintf("%q", inputs[i]), 120), "input_len": len(inputs[i]), "panic": fmt.Sprint(x)}})
-					}
-				}()
+			// in a goroutine of its own under a generous timer: a command that never returns must not take
+			// the check with it (the goroutine is abandoned; the process ends with the test)
+			done := make(chan any, 1)
+			go func() {
+				defer func() { done <- recover() }()
 				cmds[name]()
 			}()
+			select {
+			case x := <-done:
+				if x != nil {
+					out[i] = append(out[i], viol{"cmd-" + name + ":panic", map[string]any{"input": ev.Trunc(fmt.Sprintf("%q", inputs[i]), 120), "input_len": len(inputs[i]), "panic": fmt.Sprint(x)}})
+				}
+			case <-time.After(30 * time.Second):
+				out[i] = append(out[i], viol{"cmd-" + name + ":does-not-return", map[string]any{"input": ev.Trunc(fmt.Sprintf("%q", inputs[i]), 120), "input_len": len(inputs[i])}})
+				return
+			}
 		}
 	})
 	seen := map[string]bool{}
